@@ -660,10 +660,9 @@ Notes:
             else:
                 direc = asarray(direc, dtype=float)
             fval = squeeze(cost(x))
-            if self._maxiter != 0:
-                self._stepmon(x, fval, self.id) # get initial values
-                # if savefrequency matches, then save state
-                self._AbstractSolver__save_state()
+            self._stepmon(x, fval, self.id) # get initial values
+            # if savefrequency matches, then save state
+            self._AbstractSolver__save_state()
 
         elif not self.generations: # do generations = 1
             ilist = range(len(x))
@@ -712,10 +711,11 @@ Notes:
             self._direc = direc
             self.population[0] = x   # bestSolution
             self.popEnergy[0] = fval # bestEnergy
-            self.energy_history = None # resync with 'best' energy
-            self._stepmon(x, fval, self.id) # get ith values
-            # if savefrequency matches, then save state
-            self._AbstractSolver__save_state()
+            if self._energy_history is not None: # else logged by Finalize
+                self.energy_history = None # resync with 'best' energy
+                self._stepmon(x, fval, self.id) # get ith values
+                # if savefrequency matches, then save state
+                self._AbstractSolver__save_state()
 
             fx = fval
             bigind = 0
@@ -749,7 +749,7 @@ Notes:
 
     def Finalize(self):
         """cleanup upon exiting the main optimization loop"""
-        if self.energy_history != None and self._live:
+        if self._energy_history is not None and self._live: # is decoupled
             self.energy_history = None # resync with 'best' energy
             self._stepmon(self.bestSolution, self.bestEnergy, self.id)
             # if savefrequency matches, then save state
